@@ -1267,11 +1267,26 @@ class Scene(Geometry3D):
 
             # Scale all transformations in the scene graph
             edge_data = result.graph.transforms.edge_data
+            # the scale is applied along the axes of the base frame so the
+            # offset of each edge has to be scaled in that frame and not in
+            # the (possibly rotated) frame of its parent node: collect the
+            # orientation of every parent before any edge is modified
+            base = self.graph.base_frame
+            parent_linear = {}
+            for uv in edge_data:
+                try:
+                    parent_linear[uv] = self.graph.get(uv[0], base)[0][:3, :3].copy()
+                except ValueError:
+                    # parent is not connected to the base frame
+                    parent_linear[uv] = np.eye(3)
             for uv in edge_data:
                 if "matrix" in edge_data[uv]:
                     props = edge_data[uv]
                     T = edge_data[uv]["matrix"].copy()
-                    T[:3, 3] *= scale
+                    linear = parent_linear[uv]
+                    T[:3, 3] = np.linalg.solve(
+                        linear, np.dot(linear, T[:3, 3]) * np.asarray(scale)
+                    )
                     props["matrix"] = T
                     result.graph.update(frame_from=uv[0], frame_to=uv[1], **props)
             # Clear cache
